@@ -255,7 +255,7 @@ def main(tier, seed):
     q = tier == "quick"
     names = sorted({c.__name__ for c in discover.avp_classes()})
     batches = []
-    for i in range(12 if q else 32):
+    for i in range(12 if q else 96):
         batches.append({"kind": "streams", "n": 900 if q else 10000, "seed": seed * 7919 + i})
     for i in range(2 if q else 8):
         batches.append({"kind": "avpload", "n": 1500 if q else 10000, "seed": seed * 7919 + 100 + i})
